@@ -53,6 +53,8 @@ class C15(Check):
                  world_spec={"files": [{"path": "pkg/t.py", "raw": {"t": 'def f():\n    assert (1,)\n\n    assert ("one", Exception, [])\n'}}]}),
             dict(base, kind="fixed:source-write-fails", include=inc, world_spec={"files": [f1, f2]},
                  seam_faults=[{"kind": "write-eacces", "file": "pkg/a.py", "codemod_index": 0, "nth": 0}]),
+            dict(base, kind="fixed:pytest-raises-finding-line", include=["sonar:python/remove-assertion-in-pytest-raises"],
+                 world_spec={"files": [{"path": "pkg/t.py", "snippets": [next(r["idx"] for r in W.triggering("sonar:python/remove-assertion-in-pytest-raises") if G.is_plain_snippet(r))], "layout": {}}]}),
             dict(base, kind="fixed:poetry-no-deps", include=["pixee:python/url-sandbox"],
                  world_spec={"files": [{"path": "pkg/a.py", "snippets": [G.pick_snippet(__import__("random").Random(1), "pixee:python/url-sandbox")["idx"]], "layout": {}},
                                        {"path": "pyproject.toml", "manifest": next(m["idx"] for m in W.manifests() if m["name"] == "pyproject-poetry-no-deps")}]}),
